@@ -307,7 +307,11 @@ fn run_case(rt: &ConjureRuntime, registry: &[Enc], lines: &[String]) -> Result<O
         headers.append(ACCEPT, HeaderValue::from_str(l).map_err(|e| e.to_string())?);
     }
     let got = vcommon::catch(|| rt.response_body_encoding(&headers).ok().map(|e| e.content_type().to_str().unwrap().to_string()))?;
-    Ok(got.map(|ct| registry.iter().position(|e| e.content_type() == ct).expect("chosen encoding is registered")))
+    match got {
+        None => Ok(None),
+        // an encoding nobody registered is reported like a panic: a violation, not a harness crash
+        Some(ct) => registry.iter().position(|e| e.content_type() == ct).map(Some).ok_or_else(|| format!("chose {:?}, which is not among the registered encodings", ct)),
+    }
 }
 
 /// the observation point "Content-Type of responses from StdResponseSerializer": the blocking
@@ -403,6 +407,8 @@ fn serializers(rt: &ConjureRuntime, registry: &[Enc], lines: &[String], chosen: 
     }
 }
 
+const DANGLING: &str = "text/plain;charset=\"utf-8";
+
 fn check_list(list: &[Item], registry: &[Enc], rt: &ConjureRuntime, r: &mut Report) {
     let (allowed, class) = model(Some(list), registry);
     let text: Vec<String> = list.iter().map(|i| i.text()).collect();
@@ -411,6 +417,12 @@ fn check_list(list: &[Item], registry: &[Enc], rt: &ConjureRuntime, r: &mut Repo
     for cut in 1..list.len() {
         renderings.push(vec![text[..cut].join(","), text[cut..].join(" , ")]);
     }
+    // an entry that breaks off inside a quoted string ends with its own field line: the ranges
+    // of the next line count as before
+    let c = list.len() / 2;
+    let mut first: Vec<String> = text[..c].to_vec();
+    first.push(DANGLING.to_string());
+    renderings.push(vec![first.join(","), text[c..].join(",")]);
     for lines in renderings {
         r.states += 1;
         r.transitions += 1;
@@ -497,6 +509,11 @@ fn request_side(r: &mut Report) {
             let case = json!({"content_type": raw.as_ref().map(|b| String::from_utf8_lossy(b).into_owned()), "registry": registry.iter().map(|e| e.content_type()).collect::<Vec<_>>()});
             match got {
                 Err(p) => r.violation("C11|request|panic".to_string(), format!("request_body_encoding panicked: {}", p), case),
+                Ok(Some(ct)) if !registry.iter().any(|e| e.content_type() == ct) => r.violation(
+                    "C11|request|decoded-with-an-unregistered-encoding".to_string(),
+                    format!("Content-Type {:?}, registry {:?}: the body would be decoded as {:?}, which nobody registered", case["content_type"], case["registry"], ct),
+                    case,
+                ),
                 Ok(g) => {
                     let g = g.map(|ct| registry.iter().position(|e| e.content_type() == ct).unwrap());
                     if g == want {
@@ -593,7 +610,7 @@ pub fn run(args: &Args) -> Report {
             let want: Vec<String> = c["accept"].as_array().unwrap().iter().map(|x| x.as_str().unwrap().to_string()).collect();
             let total: u64 = (0..=3).map(|k| (its.len() as u64).pow(k)).sum();
             let _ = total;
-            let wanted = want.join(",").replace(' ', "");
+            let wanted = want.join(",").replace(' ', "").replace(&format!(",{}", DANGLING), "").replace(&format!("{},", DANGLING), "");
             let n_items = wanted.split(',').count();
             let red = reduced_items();
             let mut done = false;
